@@ -2,11 +2,16 @@
 // last bit) and logs texts as bytes; it performs no comparison.
 //   F32 <bits> <prec>            igris_f32toa
 //   F64 <hi32> <lo32> <prec> <fn>  fn: f64toa | ftoa
+//   Dpr <hi32> <lo32> <prec> <fn>     debug_printdec_double_prec / debug_printdec_float_prec
 //   Parse <fn> <bytes> <wantend>   fn: atof32 | atof64 | igris_strtod | strtod | atof | strtod_nof64 | atof_nof64 | binreader
 #include "common/vlog.h"
 #include <igris/util/numconvert.h>
 #include <igris/binreader.h>
 #include <math.h>
+#include <igris/dprint.h>
+static std::vector<unsigned char> dbg;
+extern "C" void debug_putchar(char c) { dbg.push_back((unsigned char)c); if (dbg.size() > 4096) { vlog::flush(); _exit(9); } }
+extern "C" void debug_write(const char *c, int n) { for (int i = 0; i < n; ++i) debug_putchar(c[i]); }
 extern "C" { double igv_strtod(const char *, char **); double igv_atof(const char *); double igv32_strtod(const char *, char **); double igv32_atof(const char *); }
 using namespace vlog;
 static std::vector<long long> limbs(unsigned long long m) { std::vector<long long> v; while (m) { v.push_back((long long)(m % 10000)); m /= 10000; } return v; }
@@ -43,6 +48,12 @@ int main(int argc, char **argv) {
             char *r = t[4] == "ftoa" ? igris_ftoa(d, (char *)buf, (int8_t)prec) : igris_f64toa(d, (char *)buf, (int8_t)prec);
             // x: the argument; y: the argument as binary32 (the unit of the representation error of this renderer)
             Ev e("Render"); e.str("fn", t[4].c_str()).i("prec", prec); dec64(e, "x_", d); dec32(e, "y_", (float)d); render_obs(e, buf, r); e.end(); free(buf);
+        } else if (t[0] == "Dpr") {   // Dpr <hi32> <lo32> <prec> <fn>   fn: dprint_double | dprint_float  (debug printers; output through debug_putchar)
+            unsigned long long bits = ((unsigned long long)num(t[1]) << 32) | (unsigned long long)num(t[2]); int prec = (int)num(t[3]); double d; memcpy(&d, &bits, 8); dbg.clear();
+            Ev e("Render"); e.str("fn", t[4].c_str()).i("prec", prec);
+            if (t[4] == "dprint_float") { debug_printdec_float_prec((float)d, prec); dec32(e, "x_", (float)d); dec32(e, "y_", (float)d); }
+            else { debug_printdec_double_prec(d, prec); dec64(e, "x_", d); dec64(e, "y_", d); }
+            e.bytes("text", dbg.data(), dbg.size()).i("terminated", 1).i("touched", (long)dbg.size()).i("retoff", 0); e.end();
         } else if (t[0] == "Parse") {
             const std::string &fn = t[1]; auto tx = blist(t[2]); int wantend = (int)num(t[3]);
             char *s = (char *)malloc(tx.size() + 1); memcpy(s, tx.data(), tx.size()); s[tx.size()] = 0; char *end = (char *)-1; char **pe = wantend ? &end : 0;
